@@ -92,6 +92,24 @@ func (x *Exec) generate(fn *ssa.Function) {
 	// vacuity guard: the pre-condition must be satisfiable
 	x.obligeCover(fr, st, "cover", "requires", fn.Pos())
 	var exitPCs []*Term
+	var coverPCs [][]*Term
+	defer func() {
+		if x.aborted == "" && c != nil {
+			for ci, e := range c.Covers {
+				ob := &Obligation{Name: fmt.Sprintf("%s#cover:%s", funcName(fn), e.Text), Kind: "cover", Func: funcName(fn), Pos: x.posOf(fn.Pos()), Cover: true, Text: e.Text, seq: len(x.oblOrder)}
+				if ci < len(coverPCs) {
+					for _, pc := range coverPCs[ci] {
+						ob.Cases = append(ob.Cases, Case{PC: pc, Goal: True})
+					}
+				}
+				if len(ob.Cases) == 0 {
+					ob.Cases = append(ob.Cases, Case{PC: False, Goal: True})
+				}
+				x.obls[fmt.Sprintf("cover:%d", ci)] = ob
+				x.oblOrder = append(x.oblOrder, ob)
+			}
+		}
+	}()
 	defer func() {
 		// vacuity guard: some path through the body must reach an exit
 		if x.aborted == "" {
@@ -135,6 +153,19 @@ func (x *Exec) generate(fn *ssa.Function) {
 				return
 			}
 			x.oblige(fr, st2, "post", "", fn.Pos(), t, e.Text)
+		}
+		for ci, e := range c.Covers {
+			t, err := ce.evalBool(e)
+			if err != nil {
+				x.fail("%s cover %q: %v", funcName(fn), e.Text, err)
+				return
+			}
+			if len(coverPCs) <= ci {
+				coverPCs = append(coverPCs, make([][]*Term, ci+1-len(coverPCs))...)
+			}
+			if len(coverPCs[ci]) < 3000 {
+				coverPCs[ci] = append(coverPCs[ci], And(st2.PC(), t))
+			}
 		}
 		x.frameCheckTop(st2)
 	})
